@@ -2,10 +2,11 @@
 
 mod dbx;
 mod pure;
+mod seglogx;
 
 use vlib::Check;
 
 fn main() {
-    let checks: Vec<&dyn Check> = vec![&pure::C23, &pure::C25];
+    let checks: Vec<&dyn Check> = vec![&pure::C23, &pure::C25, &seglogx::C17, &seglogx::C18];
     vlib::main_entry(&checks)
 }
